@@ -25,18 +25,27 @@ def link(f, n, cs):
 
 
 def l2g(items):
-    """Python twin of C16.Model.legacy_to_graph (checked against it inside Coq, corr code 9)."""
-    names, s = items[0]
+    """Python twin of C16.Model.legacy_to_graph (checked against it inside Coq, corr code 9).  An item may carry
+    the legacy '?' suffix (optional): it becomes optional=True on the observe side; the model's graphs do not
+    carry the flag (a named observer is skipped where the trait is missing)."""
+    names, s = items[0][0], items[0][1]
+    opt = len(items[0]) > 2 and bool(items[0][2])
     if len(items) == 1:
-        return [[f, True, False, []] for f in names]
+        return [[f, True, opt, []] for f in names]
     cs = l2g(items[1:])
-    return [link(f, s == ".", cs) for f in names]
+    out = [link(f, s == ".", cs) for f in names]
+    for g in out:
+        g[2] = opt
+    return out
 
 
 def legacy_text(items):
     out = ""
-    for i, (names, s) in enumerate(items):
+    for i, it in enumerate(items):
+        names, s = it[0], it[1]
         out += NAME[names[0]] if len(names) == 1 else "[%s]" % ",".join(NAME[f] for f in names)
+        if len(it) > 2 and it[2]:
+            out += "?"
         if i + 1 < len(items):
             out += s
     return out
@@ -63,7 +72,7 @@ def to_term(case, obs):
         o = C("Reg") if op[0] == "Reg" else C("Unreg") if op[0] == "Unreg" else C("Mut", c08.op_term(op))
         h.append((o, C("mkObs16", out, [(Nat(a), Nat(b)) for a, b in ob["ocalls"]],
                        [(Nat(a), Nat(b)) for a, b in ob["lcalls"]], delta)))
-    en = [(c08.nats(names), C("Dot" if s == "." else "Colon")) for names, s in case["items"]]
+    en = [(c08.nats(names), C("Dot" if s == "." else "Colon")) for names, s in (it[:2] for it in case["items"])]
     return (Nat(case["npool"]), Nat(case["root"]), en, [graw(g) for g in case["graphs"]], h)
 
 
@@ -95,7 +104,10 @@ def gen_name(rnd, ctx):
             names = rnd.sample([1, 2, 3, 4, 5], 2)
         else:
             names = [rnd.choice([1, 1, 2, 3, 3, 4, 5])]
-        items.append([names, rnd.choice([".", ".", ":"])])
+        item = [names, rnd.choice([".", ".", ":"])]
+        if len(names) == 1 and rnd.random() < 0.3:
+            item.append(True)           # the '?' suffix: child?.value / child?:value
+        items.append(item)
     last = rnd.choice([[0], [0], [0], [0], [1], [2], [0, 1], [1, 2], [2, 0]])      # final attribute(s): Int / Instance
     items.append([last, "."])
     return items
@@ -133,7 +145,7 @@ def gen_case(rnd, ctx, maxmut):
         attached.clear()
         attached.update(subtree(0))
 
-    named = sorted(set(f for names, _ in items[:-1] for f in names) | (set(items[-1][0]) - {0}))
+    named = sorted(set(f for it in items[:-1] for f in it[0]) | (set(items[-1][0]) - {0}))
 
     def pick(fields):
         pref = [f for f in fields if f in named]
@@ -293,7 +305,7 @@ def gen_case(rnd, ctx, maxmut):
     # a path along the name (most of the time), so that the walk reaches the final attribute
     if rnd.random() < 0.75:
         frontier = [0]
-        for names, _ in items[:-1]:
+        for names in (it[0] for it in items[:-1]):
             nxt = []
             for o in frontier[:2]:
                 for f in names:
@@ -341,7 +353,9 @@ def gen_case(rnd, ctx, maxmut):
             add(m)
             refresh()
             probes()
-    ctx.count("name:%d-items%s" % (len(items), "/bracket" if any(len(n) > 1 for n, _ in items) else ""))
+    ctx.count("name:%d-items%s" % (len(items), "/bracket" if any(len(it[0]) > 1 for it in items) else ""))
+    if any(len(it) > 2 and it[2] for it in items):
+        ctx.count("name:with-optional-suffix")
     ctx.count("name-final:" + ",".join(NAME[f] for f in items[-1][0]))
     ctx.count("history-length:%03d" % (10 * (len(ops) // 10)))
     if deferred:
